@@ -206,15 +206,15 @@ example : (createUpload wArchType (some budget)).map (fun r => r.toOption.map (f
 /-- **`POST /api/create {"from": m}`** (`server/model.go parseFromModel` decodes every model layer of the installed model,
     `createModel` reads the metadata through the typed accessors): for every list of blobs, no panic site and no
     allocation above the budget — the request ends in success or an error answer -/
-theorem create_from_safe_tree (blobs : List Bytes) (B : Nat) (hB : ∀ b ∈ blobs, b.length ≤ B) :
-    Safe (createFrom blobs (some B) Guards.tree) :=
-  createFrom_safe blobs B hB
+theorem create_from_safe_tree (blobs : List Bytes) (B : Nat) (hB : ∀ b ∈ blobs, b.length ≤ B) (maxSeek : Nat) :
+    Safe (createFrom blobs (some B) Guards.tree maxSeek) :=
+  createFrom_safe blobs B hB maxSeek
 
 /-- **`POST /api/show`** (`Model.Capabilities`: decode with the default array limit, failure tolerated, architecture-
     prefixed look-ups; `getModelData`: decode without array limit when verbose): safe on every blob -/
-theorem show_safe_tree (blob : Bytes) (verbose : Bool) (B : Nat) (hB : blob.length ≤ B) :
-    Safe (showModel blob verbose (some B) Guards.tree) :=
-  showModel_safe blob verbose B hB
+theorem show_safe_tree (blob : Bytes) (verbose : Bool) (B : Nat) (hB : blob.length ≤ B) (maxSeek : Nat) :
+    Safe (showModel blob verbose (some B) Guards.tree maxSeek) :=
+  showModel_safe blob verbose B hB maxSeek
 
 /-- upstream's unchecked accessor takes the handler down on the 60-byte file of `witness_pinned_accessor_panics` in
     both handlers as well -/
